@@ -114,7 +114,8 @@ func genC15(rng *rand.Rand, n int, emit func(Case), dist map[string]int) {
 						case 1:
 							body.Write(full[:10+rng.Intn(len(full)-10)])
 						case 2:
-							body.Write([]byte("{\"a\":1}  plain text, not gzip")[:1+rng.Intn(30)])
+							raw := []byte("{\"a\":1}  plain text, not gzip")
+							body.Write(raw[:1+rng.Intn(len(raw))])
 						case 3:
 							full[len(full)-1-rng.Intn(8)] ^= 0x55 // checksum or length trailer
 							body.Write(full)
